@@ -722,6 +722,19 @@ class DocumentMapper:
         new_run = Run(right_el, run._parent)
         return run, new_run
 
+    def insertion_enclosing_range(self, start_idx: int, end_idx: int) -> Optional[str]:
+        """
+        Id of the pending insertion that contains the whole range (every real character of it), else None.
+        A range that only reaches into an insertion, or out of it, is not inside it.
+        """
+        real_spans = [s for s in self.spans if s.run and s.end > start_idx and s.start < end_idx]
+        if not real_spans:
+            return None
+        ins_id = real_spans[0].ins_id
+        if ins_id and all(s.ins_id == ins_id for s in real_spans):
+            return ins_id
+        return None
+
     def get_context_at_range(self, start_idx: int, end_idx: int) -> Optional[TextSpan]:
         real_spans = [s for s in self.spans if s.run and s.end > start_idx and s.start < end_idx]
         if real_spans:
